@@ -241,7 +241,7 @@ def main():
                           "non-trivial = the bundle changed the document or raised")
   from checks import C02
   C02.tune_explore()
-  explore.explore(rep, "checks.C08", "C08Monitor", n_quick=128, budget_quick_s=45)
+  explore.explore(rep, "checks.C08", "C08Monitor", n_quick=128, budget_quick_s=30)
   return rep.finish()
 
 
